@@ -78,6 +78,12 @@ func parseClusterNodes(data string) (map[string]*instance, error) {
 			continue
 		}
 		master := insts[inst.MasterID]
+		// the master is unknown (not listed, or itself a replica which is
+		// already restructured), ignore the replica.
+		if master == nil {
+			delete(insts, id)
+			continue
+		}
 		master.Replicas = append(master.Replicas, inst)
 		delete(insts, id)
 	}
